@@ -485,11 +485,12 @@ class Frame:
         key, lv, elem = self.iter_binding(s.iter)
         assigned = _assigned_names(s.body)
         targets = _target_names(s.target)
-        carried = [n for n in assigned if n in self.env and n not in targets]
+        live_in = _read_before_write(s.body, targets)
+        carried = [n for n in assigned if n in self.env and n not in targets and n in live_in]
         init = {n: self.env[n] for n in carried}
         depth = len(self.loops)
-        for k, n in enumerate(sorted(carried)):
-            self.env[n] = ('carried', k, key, depth)
+        for k, n in enumerate(carried):
+            self.env[n] = ('carried', k, key, depth, init[n])
         self.assign(s.target, elem, s)
         self.loops.append(lv)
         self.breaks.append([])
@@ -506,9 +507,9 @@ class Frame:
             if kind == BREAK:
                 brk_cond = T.or_([brk_cond, cond])
         self.env = env_end
-        for k, n in enumerate(sorted(carried)):
+        for k, n in enumerate(carried):
             upd = self.env.get(n)
-            me = ('carried', k, key, depth)
+            me = ('carried', k, key, depth, init[n])
             if upd == me:
                 self.env[n] = init[n]
             elif upd is not None and upd[0] == 'arr' and upd[1] == me:
@@ -1100,6 +1101,35 @@ def _load(t):
 
 def _target_names(t):
     return {x.id for x in ast.walk(t) if isinstance(x, ast.Name)}
+
+
+def _read_before_write(body, targets=()):
+    """names whose value at loop entry can be observed by the body: read before being definitely assigned in the iteration"""
+    written = set(targets)
+    live = set()
+
+    def loads(node):
+        return [x.id for x in ast.walk(node) if isinstance(x, ast.Name) and isinstance(x.ctx, ast.Load)]
+    for st in body:
+        if isinstance(st, ast.Assign) and all(isinstance(t, ast.Name) for t in st.targets):
+            live.update(n for n in loads(st.value) if n not in written)
+            written.update(t.id for t in st.targets)
+        elif isinstance(st, ast.Assign) and all(isinstance(t, (ast.Name, ast.Tuple)) for t in st.targets):
+            live.update(n for n in loads(st.value) if n not in written)
+            for t in st.targets:
+                written.update(x.id for x in ast.walk(t) if isinstance(x, ast.Name))
+        elif isinstance(st, ast.For):
+            live.update(n for n in loads(st.iter) if n not in written)
+            inner = _read_before_write(st.body, set(written) | _target_names(st.target))
+            live.update(n for n in inner if n not in written)
+        else:
+            live.update(n for n in loads(st) if n not in written)
+            # names stored by subscript / mutator calls keep their identity: their previous value matters
+            for x in ast.walk(st):
+                if isinstance(x, ast.Call) and isinstance(x.func, ast.Attribute) and isinstance(x.func.value, ast.Name):
+                    if x.func.value.id not in written:
+                        live.add(x.func.value.id)
+    return live
 
 
 def _assigned_names(body):
